@@ -506,6 +506,7 @@ class PteraTransformer(NodeTransformer):
         for ext in self.external:
             self.provenance[ext] = "external"
         self.annotated = {}
+        self.loopvars = set()
         self.evalcache = {None: ABSENT}
         self.linenos = {}
         self.defaults = {}
@@ -980,6 +981,7 @@ class PteraTransformer(NodeTransformer):
         new_body.extend(self.visit_body(node.body))
 
         svc = SimpleVariableCollector(node.target)
+        self.loopvars.update(svc.vars)
 
         new_body = self.delimit(
             new_body,
@@ -1730,6 +1732,15 @@ def transform(fn, proceed, to_instrument=True, set_conformer=True):
         for k in all_vars
     }
     info.update(_standard_info())
+    for v in transformer.loopvars:
+        for hashvar, tg in (("#loop", enter_tag), ("#endloop", exit_tag)):
+            info[f"{hashvar}_{v}"] = {
+                "name": f"{hashvar}_{v}",
+                "annotation": tg,
+                "provenance": "meta",
+                "doc": None,
+                "location": None,
+            }
 
     if set_conformer:
         actual_fn._conformer = _Conformer(fn, actual_fn, proceed)
